@@ -60,7 +60,7 @@ class C12(Prop):
         "wq_reset_while_pending_loses_wakeup", "wq_unrepaired_remove_loses_block",
         "codec_unpack5_pack5", "codec_unpack2_pack2", "codec_unpack2_pack5", "codec_packet_count", "codec_eod_last",
         "codec_unpack_chunk", "codec_pack_in_place", "th_barrier", "th_counter", "th_no_lost_wakeup_master", "th_progress",
-        "loader_nload_largest_prefix", "loader_chunks_partition", "pipe_order", "pipe_eof_after_all", "pipe_lanes", "pipe_no_deadlock", "pipe_buffers")]
+        "loader_nload_largest_prefix", "loader_chunks_partition", "pipe_order", "pipe_eof_after_all", "pipe_lanes", "pipe_no_deadlock", "pipe_no_lost_wakeup", "pipe_buffers")]
     claimed = True
     level_text = ("Theorems for every schedule of one reader and any number of workers (one atomic step per mutex-protected region, spurious wake-ups allowed): "
                   "conservation and exclusivity of blocks, FIFO on both queues (history variables), counters in range and pendingWorkers = number of sleepers, "
@@ -71,7 +71,7 @@ class C12(Prop):
                   "no deadlock within a watchdog).")
     level_note = ("Trusted: Lean kernel + propext/Classical.choice/Quot.sound; fidelity of the hand models is checked by differential run / trace validation, not proved; "
                   "pthread semantics and data-race freedom are assumed (atomic step per critical section); caller contract of the queue stated as `Admissible`. "
-                  "Not theorems: no-lost-wake-up of the dsqdata pipeline (checked on every state of the observed traces only), the byte-level in-place "
+                  "Not theorems: the byte-level in-place "
                   "unpacking overlap inside smem (covered by ASan + tight-chunk content comparison; in-place PACKING is a theorem), metadata parsing of unpack_chunk (differential only), esl_dsqdata_Open/Write file "
                   "handling, the esl_workqueue_queuelock_* variants (unfinished code, not covered).")
     diverge_is_violation = True
@@ -435,9 +435,9 @@ class C12(Prop):
                 r = kv(l)
                 nseq = 0 if a["dsq"] == "-" else a["dsq"].count(",") + 1
                 unx = lambda x: list(bytes.fromhex(x[1:]))
-                if not l.startswith("ok ") or r.get("dup") != "0" or r.get("miss") != "0" or r.get("bad") != "-1" or r.get("oob") != "0" or r.get("err") != "0" or r.get("lockerr") != "0" \
+                if not l.startswith("ok ") or r.get("dup") != "0" or r.get("miss") != "0" or r.get("bad") != "-1" or r.get("oob") != "0" or r.get("err") != "0" or r.get("lockerr") != "0" or r.get("leak") != "0" \
                         or r.get("eofs") != a["consumers"] or r.get("nseq") != str(nseq):
-                    return Failure("monitor", "read-back differs from what was written (dup/miss/bad record, EOF not delivered to every consumer): %r" % l[:300])
+                    return Failure("monitor", "read-back differs from what was written (dup/miss/bad record, EOF not delivered to every consumer, lock misuse, leaked chunk): %r" % l[:300])
                 amino = a["abc"] == "amino"
                 P = [len((pack5 if amino else pack2)(unx(x))) for x in (a["dsq"].split(",") if a["dsq"] != "-" else [])]
                 maxseq, maxpacket = int(a["maxseq"]), int(a["maxpacket"])
